@@ -33,8 +33,11 @@ Theorem C01_fast_generic_roundtrip :
     (forall a, 0 <= vrd a < 256) -> 0 <= dictSize -> od <> FillOutput ->
     forall L, L <= startIndex ->
     (dd = CUsingDictCtx -> forall h, get dtable h + dictDelta < startIndex /\
-                                     good tt dd dictSmall startIndex dictSize (get dtable h + dictDelta)) ->
+                                     good3 tt dd dictSmall startIndex dictSize (get dtable h + dictDelta)) ->
     (dist_active tt = false -> startIndex + inputSize - MFLIMIT - hist_lo dd startIndex dictSize <= 65535) ->
+    0 <= startIndex ->
+    (tt = ByU16 -> mflimitPlusOne startIndex inputSize <= 65536
+                   \/ (dictSmall = true /\ 65536 <= startIndex - dictSize /\ L <= 0)) ->
     1 <= acceleration ->
     forall tab ss last consumed tab' hw,
     0 <= inputSize -> tab_ok tt dd dictSmall startIndex dictSize L (startIndex + 1) tab ->
@@ -46,6 +49,12 @@ Theorem C01_fast_generic_roundtrip :
 Proof. exact compress_validated_roundtrip. Qed.
 Print Assumptions C01_fast_generic_roundtrip.
 
+(* [strict_valid] = decodes AND satisfies the end-of-block restrictions; it implies plain decoding. *)
+Theorem C01_strict_implies_decode :
+  forall hist blk d, strict_valid hist blk = Some d -> spec_decode hist blk = Some d.
+Proof. exact strict_valid_spec. Qed.
+Print Assumptions C01_strict_implies_decode.
+
 (* 3. LZ4_compress_default / LZ4_compress_fast / LZ4_compress_fast_extState (full reset:
       the model takes no prior state at all, LZ4_initStream overwrites it). *)
 Theorem C01_fast_extState_roundtrip :
@@ -54,7 +63,7 @@ Theorem C01_fast_extState_roundtrip :
     let a := compress_fast_extState src srcSize cap accel in
     0 < a_ret a ->
     a_ret a = Z.of_nat (length (a_out a)) /\
-    spec_decode [] (a_out a) = Some (load_list src 0 (Z.to_nat srcSize)).
+    strict_valid [] (a_out a) = Some (load_list src 0 (Z.to_nat srcSize)).
 Proof. exact compress_fast_extState_roundtrip. Qed.
 Print Assumptions C01_fast_extState_roundtrip.
 
@@ -65,7 +74,7 @@ Theorem C01_fastReset_history :
     Forall (fun ka => let '(k, a) := ka in
               0 < a_ret a ->
               a_ret a = Z.of_nat (length (a_out a)) /\
-              spec_decode [] (a_out a) = Some (load_list (k_src k) 0 (Z.to_nat (k_size k))))
+              strict_valid [] (a_out a) = Some (load_list (k_src k) 0 (Z.to_nat (k_size k))))
            (run_history c calls).
 Proof. exact fastReset_history_sound. Qed.
 Print Assumptions C01_fastReset_history.
